@@ -14,10 +14,10 @@ fn main() {
     let k: usize = args.get(2).and_then(|s| s.parse().ok()).unwrap_or(2);
     // the stream a thread gets when it is the only one creating nodes (fresh thread, nothing concurrent)
     let solo = thread::spawn(move || script(1, k, None)).join().unwrap();
-    let o = run_once(threads, k, false);
+    let o = run_once(threads, k, false, false);
     println!("SOLO {:?}", solo.prios);
     println!("OUTCOME {}", outcome_json(&o));
-    match check_results(&o, k) {
+    match check_results(&o, k, &solo.tie_shape) {
         Ok(()) => println!("RESULTS ok"),
         Err(m) => println!("RESULTS {}", m),
     }
